@@ -26,10 +26,10 @@ SCALAR_BIN = ['add_s', 'sub_s', 'mul_s', 'div_s', 'lt_s', 'le_s', 'gt_s', 'ge_s'
 INPLACE_T = ['imul_t', 'itruediv_t']
 UNARY = ['abs', 'exp', 'expm1', 'log', 'clamp_min', 'clamp_max', 'neg_', 'log_', 'log1p_', 'relu_', 'abs_', 'nan_to_num_']
 BOOL_OPS = ['logical_and', 'logical_or', 'logical_not', 'any']
-STRUCT = ['where', 'log_softmax', 'getitem', 'iter', 'tolist', 'transpose', 't', 'T', 'permute', 'flatten', 'unsqueeze',
+STRUCT = ['where', 'where_derived', 'log_softmax', 'getitem', 'iter', 'tolist', 'transpose', 't', 'T', 'permute', 'flatten', 'unsqueeze',
           'expand', 'expand_as', 'stack', 'clone', 'detach', 'copy_', 'to', 'default_to', 'project', 'dim_to_dense',
           'freshen', 'reshape', 'view', 'reshape_must', 'equal_self']
-ALL_OPS = FLOAT_BIN + SCALAR_BIN + INPLACE_T + UNARY + BOOL_OPS + STRUCT
+ALL_OPS = FLOAT_BIN + SCALAR_BIN + INPLACE_T + UNARY + BOOL_OPS + STRUCT + ['where_derived', 'where_derived', 'reshape_must', 'project', 'log_softmax']
 SCALARS = (0.0, 1.0, -1.0, 2.0, 0.5, -3.0, math.inf, -math.inf)
 
 
@@ -291,6 +291,24 @@ def run_step(ctx, step, fl, bo, case, pool):
         c = bo[step['c'] % len(bo)]
         ref = ref_or_skip(lambda: torch.where(c[1], A[1], B[1]))
         return lib(op, A[0].where, c[0], B[0]), ref, True
+    if op == 'where_derived':
+        # condition derived from one of the branches (shares its physical axes), as in sum_product.log_softmax
+        src = [A, B][n1 % 2]
+        cmpop = ['gt', 'le', 'eq'][n2 % 3]
+        s_pt, s_d = src[0], src[1]
+        if n3 % 2 == 0 and s_d.ndim >= 2 and s_d.shape[0] == s_d.shape[-1]:
+            # condition computed from the transposed branch: shares the branch's axes in other positions
+            s_pt = lib('T', lambda: s_pt.T) if s_d.ndim == 2 else lib('transpose', s_pt.transpose, 0, s_d.ndim - 1)
+            s_d = s_d.transpose(0, s_d.ndim - 1)
+            ctx.label('where-transposed-condition')
+        c_pt = lib(cmpop, getattr(s_pt, cmpop), x)
+        c_d = getattr(s_d, cmpop)(x)
+        if n3 % 4 == 1 and c_d.ndim:
+            dim = n3 % c_d.ndim
+            c_pt = lib('any', c_pt.any, dim, True); c_d = c_d.any(dim, True)
+        ref = ref_or_skip(lambda: torch.where(c_d, A[1], B[1]))
+        if A[1].dtype != B[1].dtype: raise Skip('mixed dtypes')
+        return lib('where', A[0].where, c_pt, B[0]), ref, True
     if op == 'log_softmax':
         if A[1].ndim == 0: raise Skip('0-dim')
         if bool((A[1] == math.inf).any()) or bool(A[1].isnan().any()): raise Skip('input has +inf/nan')
